@@ -13,41 +13,86 @@ TRUST = (
 )
 
 # property -> (claim text, technique, design ref)
+E1 = "CrossHair 0.0.110 symbolic execution of httpcore's own modules, every branch decided by z3; exhaustive per condition/shard within the stated bounds"
 CLAIMS = {
-    "C01": ("Bounded symbolic verification. (1) one inductive pool step from an arbitrary symbolic pool state (unbounded "
-            "N, K, ports): a request is only ever assigned to a pooled, available connection for its origin or one "
-            "created for it; (2) bounded HTTP/1.1 life-cycle scenarios with symbolic framing, caller behaviour, faults: "
-            "token equality and no request written before the previous exchange finished in both directions.",
-            "CrossHair symbolic execution of the real pool/connection code with z3, exhaustive per shard", "§3 C01"),
-    "C04": ("Bounded symbolic verification: one inductive pool step from an arbitrary symbolic state with unbounded "
-            "max_connections/max_keepalive (len<=N afterwards, nothing dropped unclosed), plus ledger scenarios "
-            "(open sockets <= N apart from evicted ones) with symbolic faults.",
-            "CrossHair symbolic execution (inductive step, unbounded integers) with z3", "§3 C04"),
-    "C05": ("Bounded symbolic verification over the fault index / cancellation step of every network operation and "
-            "suspension point of a request, for 8 connection types, sync and async: afterwards no request is queued, "
-            "no pooled connection is stuck (neither idle, closed nor expired), and fresh requests obtain connections "
-            "without waiting.",
-            "CrossHair symbolic execution of pool+connection code over a simulated backend and model scheduler", "§3 C05"),
-    "C06": ("Same runs as C05 with a ledger oracle: at quiescence every open socket is accounted for by a live pooled "
-            "connection and after pool.close() none is open.",
-            "CrossHair symbolic execution with a socket ledger oracle", "§3 C06"),
-    "C07": ("Inductive pool step: after every assignment pass a request that is still queued has no available "
-            "connection for its origin, the pool is full and nothing is evictable (unbounded N, K); bounded liveness "
-            "scenarios over the model scheduler.",
-            "CrossHair symbolic execution (inductive step + symbolic schedules)", "§3 C07"),
-    "C09": ("Inductive pool step clauses for reuse / keep-alive limit / expiry with unbounded N, K; expiry arithmetic "
-            "with a symbolic clock.",
-            "CrossHair symbolic execution (inductive step, symbolic clock)", "§3 C09"),
-    "C10": ("Inductive pool step (assignment only to a connection whose origin matches) plus Origin equality kernel "
-            "and a ledger scenario over scheme/proxy/ALPN configurations.",
-            "CrossHair symbolic execution", "§3 C10"),
-    "C17": ("Bounded symbolic verification of the 101 / CONNECT-2xx hand-over on the real HTTP11Connection: every cut "
-            "of head+data around the head end, three sized reads from {1,2,64}, post-head data 0..6 bytes.",
-            "CrossHair symbolic execution; kernel obligation by AST->SMT (z3 sequences)", "§3 C17"),
-    "C20": ("Bounded symbolic verification: retries N unbounded, every sequence of up to 3 (quick) / 5 (thorough) "
-            "scripted attempt outcomes over 7 kinds at TCP/UDS and TLS stage; attempts, back-off sequence, raised error "
-            "and no retry after establishment are checked from the ledger.",
-            "CrossHair symbolic execution with an unbounded symbolic retry count", "§3 C20"),
+    "C01": ("Bounded symbolic verification, four parts: (1) one inductive pool step from an arbitrary symbolic pool state (unbounded N, K, ports): "
+            "a request is only assigned to a pooled, available connection for its origin or to one created for it; (2) HTTP/1.1 life-cycle: 2-3 "
+            "consecutive exchanges with symbolic framing, caller behaviour (read/partial/drop), one fault: token equality and no request written "
+            "before the previous exchange finished in both directions; (3) HTTP/2 demultiplexing under every merge order of 2-3 streams' frames; "
+            "(4) 2-3 concurrent callers on the pool with a symbolic schedule deviation / cancellation.",
+            E1, "§3 C01"),
+    "C02": ("Bounded symbolic verification: 13 HTTP/1.1 response variants x every cut position (pairs/triples in the thorough tier), one byte per read, "
+            "every truncation point; 4 HTTP/2 variants x every cut (inside frame headers/HPACK), truncation, RST_STREAM: status, reason, version, raw "
+            "headers and body equal the ground truth; a cut-short framed body is an error.",
+            E1 + " (the solver enumerates the finite cut/truncation grammar; h11/h2 run natively)", "§3 C02"),
+    "C03": ("Bounded symbolic verification: method x target form x header list x body kind x first-use/reuse; the bytes on the wire are decoded by an "
+            "independent strict HTTP/1.1 parser / the h2 library in server role and compared; illegal heads give LocalProtocolError with nothing "
+            "written. Plus AST->SMT kernels: Host/port decision for every host and integer port, HTTP/2 DATA chunking arithmetic.",
+            E1 + "; E2 kernels: AST->SMT, z3 unsat", "§3 C03"),
+    "C04": ("Bounded symbolic verification: one inductive pool step from an arbitrary symbolic state with unbounded max_connections/max_keepalive "
+            "(len<=N afterwards, nothing dropped unclosed, created connections pooled) plus concurrent ledger scenarios: open sockets apart from "
+            "evicted ones never exceed N.",
+            E1 + " (inductive step over unbounded integers)", "§3 C04"),
+    "C05": ("Bounded symbolic verification over the fault index / cancellation step of every network operation and suspension point of a request, "
+            "8 connection types, sync and async: afterwards no request is queued, no pooled connection is stuck (neither idle, closed nor expired) "
+            "and fresh requests obtain connections without waiting.",
+            E1 + " over a simulated backend and a model scheduler", "§3 C05"),
+    "C06": ("Same runs as C05 with a socket ledger oracle: at quiescence every open socket is accounted for by a live pooled connection, and after "
+            "pool.close() none is open.",
+            E1 + " with a socket-ledger oracle", "§3 C06"),
+    "C07": ("Inductive pool step (a request left queued has no available connection, the pool is full and nothing is evictable; unbounded N, K) plus "
+            "bounded liveness: 2-3 callers, 1-2 origins, N in {1,2}, one schedule deviation or one cancellation, HTTP/1.1, HTTP/2 and the "
+            "'turned out to be HTTP/1.1' re-queue: no deadlock, every caller terminates, queue empty at quiescence.",
+            E1 + " (inductive step + symbolic schedules over the model runtime)", "§3 C07"),
+    "C08": ("REDUCED CLAIM (line-level thread pre-emption is NOT covered): (a) lock discipline on every explored sync path (pool lists only "
+            "mutated by the pool with its lock held; connection state only changed under its state lock), (b) the four threading adapters, "
+            "(c) the pool step as the sync module runs it, (d) interleavings at lock/event/network operations through the async twin, carried "
+            "over to the sync code by C18.",
+            E1, "§3 C08, §4"),
+    "C09": ("Inductive pool step clauses for reuse / keep-alive limit / expiry with unbounded N, K; expiry arithmetic on the real connections with an "
+            "unbounded symbolic clock and expiry for 6 connection types; 3-4 step histories against a reference model of idle/expired sockets.",
+            E1 + " (unbounded integers for limits and time)", "§3 C09"),
+    "C10": ("Inductive pool step (assignment only to a connection whose origin matches), Origin equality kernel (symbolic bytes, unbounded "
+            "ports) and a ledger scenario over scheme x port x proxy x http1/http2 x ALPN x SNI with two near-miss origins.",
+            E1, "§3 C10"),
+    "C11": ("Bounded symbolic verification: merge_headers on symbolic header names; forward/tunnel/SOCKS hops with symbolic credentials, proxy "
+            "headers (case-colliding), request variants and proxy replies (8 CONNECT statuses; SOCKS method/auth/reply codes).",
+            E1, "§3 C11"),
+    "C12": ("Bounded symbolic verification on the real HTTP/2 connection over the model scheduler and a strict h2 server: every merge order of "
+            "2-3 streams' frames, batch boundaries, SETTINGS(MAX_CONCURRENT_STREAMS) at any position/value, RST_STREAM, PING, abandoning callers, "
+            "advertised limits 1/2 with cold start: isolation, stream bound, no wedge.",
+            E1, "§3 C12"),
+    "C13": ("Bounded symbolic verification: uploads for windows {1,5,65535} x frame sizes x lengths {0,1,w-1,w,w+1,2w+3} x 5 WINDOW_UPDATE "
+            "schedules (incl. early responses), two uploads sharing the connection window, credit return per DATA event observed at the h2 "
+            "boundary, one long download; plus the AST->SMT kernel of the chunking loop for arbitrary window readings.",
+            E1 + "; E2 kernel: AST->SMT, z3 unsat", "§3 C13"),
+    "C14": ("Bounded symbolic verification from the servers' ledgers: HTTP/1.1 with a fault at any operation (incl. partial writes), retries, reuse; "
+            "HTTP/2 with GOAWAY at any server-side event and any last_stream_id, 1-2 concurrent requests: a request head is seen at most once "
+            "unless GOAWAY named a lower last-stream-id; no stream opened after GOAWAY was read.",
+            E1, "§3 C14"),
+    "C15": ("The solver enumerates a finite mutation grammar (position x 13 operations over valid HTTP/1.1, HTTP/2, CONNECT and SOCKS5 "
+            "conversations, and every reply of length <= 3 over a 6-symbol alphabet) plus injected backend faults and concurrent cancellations: "
+            "only documented exception classes matching the cause reach the caller; no hang once the input ended.",
+            E1 + " (finite grammar, parsers native)", "§3 C15"),
+    "C16": ("Bounded symbolic verification: the four time-outs as unbounded symbolic integers (pairwise different, optionally absent) traced to "
+            "every connect/start_tls/read/write of 8 connection types; PoolTimeout instant with symbolic T and H on a virtual clock "
+            "(asyncio and trio adapters, sync).",
+            E1 + " (unbounded symbolic integers)", "§3 C16"),
+    "C17": ("UNBOUNDED kernel obligation by AST->SMT (one read() step from an arbitrary buffered state for every byte sequence and max_bytes) "
+            "plus bounded scenarios on the real HTTP11Connection: every cut around the head end, sized reads, 101 and CONNECT-2xx.",
+            "E2: AST->SMT (z3 sequences), unsat; " + E1, "§3 C17"),
+    "C18": ("Differential symbolic execution of both variants in one product harness (fault injection over 8 connection types, keep-alive "
+            "histories, pool time-outs, response segmentation): equal ledgers, outcomes and pool/connection states; plus the syntactic pairing of "
+            "httpcore/_sync with a fresh translation of httpcore/_async at full length (precondition of the product harness).",
+            E1 + " (product harness); pairing is a syntactic comparison", "§3 C18"),
+    "C19": ("The solver enumerates a URL grammar (5 schemes x userinfo x 5 host forms x 4 port forms x 7 paths x query x fragment, str and "
+            "bytes) against an RFC 3986 appendix-B reference; origin laws with unbounded symbolic ports; type gate over a boundary alphabet; "
+            "AST->SMT kernel of the Host/port decision for every host and integer port.",
+            E1 + "; E2 kernel: AST->SMT, z3 unsat", "§3 C19"),
+    "C20": ("Bounded symbolic verification: retries N unbounded, every sequence of up to 3 (quick) / 5 (thorough) scripted attempt outcomes over 7 "
+            "kinds at TCP/UDS and TLS stage; attempts, back-off sequence, raised error, no retry after establishment; AST->SMT closed form of "
+            "exponential_backoff for every real factor.",
+            E1 + " (unbounded retry count); E2 kernel", "§3 C20"),
 }
 
 NOT_YET = {}
